@@ -65,7 +65,7 @@ func (d *dialer) Dial() (transport.Pipe, error) {
 func (d *dialer) SetOption(n string, v interface{}) error {
 	switch n {
 	case mangos.OptionMaxRecvSize:
-		if b, ok := v.(int); ok {
+		if b, ok := v.(int); ok && b >= 0 {
 			d.lock.Lock()
 			d.maxRecvSize = b
 			d.lock.Unlock()
@@ -229,7 +229,7 @@ func (l *listener) SetOption(n string, v interface{}) error {
 	defer l.lock.Unlock()
 	switch n {
 	case mangos.OptionMaxRecvSize:
-		if b, ok := v.(int); ok {
+		if b, ok := v.(int); ok && b >= 0 {
 			l.maxRecvSize = b
 			return nil
 		}
